@@ -53,6 +53,48 @@ class TraceIO(io.BytesIO):
         return io.BytesIO.tell(self)
 
 
+class TraceRawIO(io.RawIOBase):
+    """The same log, for an UNBUFFERED raw stream (io.RawIOBase, like open(path, 'rb', buffering=0)): what the library
+    fetches from such a stream is what reaches the operating system."""
+    def __init__(self, data=b''):
+        io.RawIOBase.__init__(self)
+        self._inner = io.BytesIO(data)
+        self.events = []
+        self.enabled = True
+
+    def readable(self):
+        return True
+
+    def seekable(self):
+        return True
+
+    def readinto(self, buf):
+        pos = self._inner.tell()
+        k = self._inner.readinto(buf)
+        if self.enabled:
+            self.events.append(('readinto', pos, k, len(buf)))
+        return k
+
+    def seek(self, off, whence=0):
+        pos = self._inner.tell()
+        r = self._inner.seek(off, whence)
+        if self.enabled:
+            self.events.append(('seek', pos, r, whence))
+        return r
+
+    def tell(self):
+        return self._inner.tell()
+
+    def mark(self):
+        return len(self.events)
+
+    def reads_since(self, mark):
+        return [(e[1], e[2]) for e in self.events[mark:] if e[0] in ('read', 'readinto') and e[2]]
+
+    def position(self):
+        return self._inner.tell()
+
+
 def union(ranges):
     """Merge [(start, len)] into sorted disjoint [(start, end)]."""
     iv = sorted((a, a + l) for a, l in ranges if l > 0)
